@@ -172,9 +172,15 @@ mpf_get_str (char *dbuf, mp_exp_t *exp, int base, size_t n_digits, mpf_srcptr u)
      area, since we generate more digits than requested.  (We allocate
      2 * GMP_LIMB_BITS extra bytes because of the digit block nature of the
      conversion.)  */
-  tstr = (unsigned char *) TMP_ALLOC (n_digits + 2 * GMP_LIMB_BITS + 3);
+  tstr = (unsigned char *) TMP_ALLOC (n_digits + 3 * GMP_LIMB_BITS + 3);
 
-  n_limbs_needed = 2 + ((mp_size_t) (n_digits / mp_bases[base].chars_per_bit_exactly)) / GMP_NUMB_BITS;
+  /* One limb more than the digits need would leave only a bit or two of guard
+     when n_digits needs just under a whole number of limbs (19, 38, 57, 77...
+     decimal digits), while the operand and every square in
+     mpn_pow_1_highpart are truncated to this size: the digits came out
+     several units of the last place off for large exponents (2^25024 to 19
+     digits: 21 units).  Keep a whole guard limb.  */
+  n_limbs_needed = 3 + ((mp_size_t) (n_digits / mp_bases[base].chars_per_bit_exactly)) / GMP_NUMB_BITS;
 
   if (ue <= n_limbs_needed)
     {
